@@ -307,3 +307,24 @@ def is_skip_filter(prog, consumer, body=None, site=None):
     if r is False or r == 0:
         return True, "filter(p) with p(x) = false whenever should_skip(&x.attrs)"
     return False, "filter predicate keeps a member although should_skip(&member.attrs) is true (result %r)" % (r,)
+
+
+def cross_check(rule, decided_by):
+    """Decorator for structural cross-checks over the derive crate's private functions: a private anchor that no longer exists under the known
+    name (renamed, inlined, split) makes the cross-check abstain for everything it had not reported yet; the clause is decided by `decided_by`."""
+    def deco(fn):
+        def wrapped(chk, *a, **kw):
+            try:
+                return fn(chk, *a, **kw)
+            except mir.AnchorError as e:
+                m = re.search(r"anchor '([^']+)'", str(e))
+                chk.abstain(rule, "anchor:%s" % (m.group(1) if m else fn.__name__), None, "private function of the derive crate not found under its known name (%s)" % str(e)[:120],
+                            a[-1] if a and isinstance(a[-1], str) else None, decided_by=decided_by)
+        wrapped.__name__ = fn.__name__
+        return wrapped
+    return deco
+
+
+def is_gathering(consumer):
+    """the iterator is only collected / appended / flattened into a temporary list (no member is selected or emitted at this site)"""
+    return consumer is not None and consumer[1]["name"].split("::")[-1] in ("collect", "extend", "flat_map", "chain", "cloned", "copied", "from_iter")
